@@ -130,15 +130,18 @@ class TableQPolicy(AbstractQPolicy):
     observation_space: AbstractSpace
     epsilon: float
     q: jnp.ndarray
+    w: jnp.ndarray
     nS: int = eqx.field(static=True)
     obs_kind: str = eqx.field(static=True)
 
-    def __init__(self, env, spec, q, epsilon):
+    def __init__(self, env, spec, q, epsilon, w=None):
         self.action_space = env.action_space
         self.observation_space = env.observation_space
         self.nS = spec["nS"]
         self.obs_kind = spec.get("obs_kind", "onehot")
         self.q = jnp.asarray(q, dtype=float)
+        # optional dependence of the Q-values on the policy state (a "recurrent" policy): Q[s] + w * n
+        self.w = jnp.zeros(self.q.shape[1], dtype=float) if w is None else jnp.asarray(w, dtype=float)
         self.epsilon = float(epsilon)
 
     def reset(self, *, key):
@@ -146,7 +149,7 @@ class TableQPolicy(AbstractQPolicy):
 
     def q_values(self, state, observation):
         s, _ = _sid(observation, self.obs_kind, self.nS, False)
-        return CounterState(state.n + 1), self.q[s]
+        return CounterState(state.n + 1), self.q[s] + self.w * state.n
 
 
 class TableSACPolicy(AbstractSACPolicy):
